@@ -24,14 +24,17 @@ package vault
 import (
 	"context"
 	"encoding/json"
+	"errors"
 	"fmt"
 	"os"
 	"sort"
 	"strings"
 	"sync"
+	"sync/atomic"
 	"testing"
 	"time"
 
+	"github.com/openbao/openbao/sdk/v2/helper/consts"
 	kit "github.com/openbao/openbao/sdk/v2/helper/verifkit"
 	"github.com/openbao/openbao/sdk/v2/logical"
 	"github.com/openbao/openbao/sdk/v2/physical"
@@ -512,6 +515,9 @@ type c06CtxMount struct {
 	v      *vCore
 	dead   map[string]bool
 	reqCtx context.Context // context of the last request that reached the mount
+	// afterIssue runs on the request's goroutine when the mount's handler has issued a secret and before
+	// the response goes back to the core (a slow credential generation; see the lifetime-edge monitor)
+	afterIssue func(req *logical.Request)
 }
 
 var c06CtxMounts = map[*vCore]*c06CtxMount{}
@@ -544,7 +550,13 @@ func (b *c06CtxBackend) HandleRequest(ctx context.Context, req *logical.Request)
 	if strings.HasPrefix(req.Path, "lease/") && (req.Operation == logical.ReadOperation || req.Operation == logical.UpdateOperation) {
 		b.h.mu.Lock()
 		b.h.reqCtx = ctx
+		hook := b.h.afterIssue
 		b.h.mu.Unlock()
+		resp, err := b.Backend.HandleRequest(ctx, req)
+		if hook != nil && err == nil && resp != nil && resp.Secret != nil {
+			hook(req)
+		}
+		return resp, err
 	}
 	return b.Backend.HandleRequest(ctx, req)
 }
@@ -559,8 +571,20 @@ func (h *c06CtxMount) factory(ctx context.Context, conf *logical.BackendConfig) 
 
 func c06Boot(t *testing.T, transactional, cache bool) *vCore {
 	h := &c06CtxMount{dead: map[string]bool{}}
-	v := vBoot(t, vOpts{Transactional: transactional, Cache: cache, Logical: map[string]logical.Factory{"c06ctx": h.factory}})
+	// the store: probe -> error-class injector -> in-memory backend
+	conf := map[string]string{}
+	if !transactional {
+		conf["disable_transactions"] = "true"
+	}
+	in, ierr := inmem.NewInmem(conf, nil)
+	if ierr != nil {
+		t.Fatalf("verif: inmem: %v", ierr)
+	}
+	inj := &c06Inj{}
+	phys, _ := kit.NewProbe(inj.wrap(in))
+	v := vBoot(t, vOpts{Transactional: transactional, Cache: cache, Phys: phys, Logical: map[string]logical.Factory{"c06ctx": h.factory}})
 	h.v = v
+	c06Injs[v] = inj
 	c06CtxMounts[v] = h
 	for _, ns := range []string{"", "ns1/", "ns1/ns2/"} {
 		switch ns {
@@ -620,6 +644,34 @@ type c06Case struct {
 	cancel  context.CancelFunc
 	ops     []kit.Event
 	bad     int
+
+	faultCls *c06ErrClass // error class of the injected fault (nil = the kit's generic error)
+	faulted  kit.Event    // the storage operation that failed
+	noWindow bool         // skip the restart with held lease restoration (done by the generic-error run of the same operation)
+}
+
+// leaseWriteFault reports whether the injected fault hit a write of the secret's lease bookkeeping: the put
+// of the lease record or of its token-index entry, or the commit of a transaction that wrote one of them.
+func (c *c06Case) leaseWriteFault() bool {
+	f := c.faulted
+	secretLeaseKey := func(k string) bool {
+		if i := strings.Index(k, c06LeaseTree); i >= 0 {
+			// a token's lease (the wrapping token's is filed under the request path too) ends in the salted token id
+			return !c06SaltedTail(k[i+len(c06LeaseTree):])
+		}
+		return strings.Contains(k, "sys/expire/token/") // token-index entries exist for leases of secrets only
+	}
+	switch f.Op {
+	case "put", "delete":
+		return secretLeaseKey(f.Key)
+	case "commit":
+		for _, e := range c.ops {
+			if e.Txn == f.Txn && (e.Op == "put" || e.Op == "delete") && secretLeaseKey(e.Key) {
+				return true
+			}
+		}
+	}
+	return false
 }
 
 func c06NewCase(v *vCore, vr c06Variant, tx bool, rng *kit.Rand) *c06Case {
@@ -961,7 +1013,7 @@ func c06Judge(r *kit.Result, c *c06Case, caseID string, resp *logical.Response, 
 			winSecs = append(winSecs, c06WinSec{LeaseID: id, NS: vr.NS})
 		}
 	}
-	if len(winToks)+len(winSecs) > 0 {
+	if len(winToks)+len(winSecs) > 0 && !c.noWindow {
 		winSnap = v.Probe.Snapshot()
 	}
 
@@ -1003,7 +1055,12 @@ func c06Judge(r *kit.Result, c *c06Case, caseID string, resp *logical.Response, 
 		}
 		rev := c06Has(revoked, s)
 		r.Count("secrets_judged", 1)
+		// narrow signature: a write of the lease bookkeeping was refused with a read-only / standby class error,
+		// the client got an error, and the secret is still live at its backend
+		roClass := c.faultCls != nil && c.faultCls.Forward && c.leaseWriteFault() && (held.How == "error" || held.How == "empty") && !rev
 		switch {
+		case roClass:
+			viol(c06ClassRO, fmt.Sprintf("the write was refused with %q, the client got an error, and secret %s is not revoked at the backend; lease records left: %d, token-index entries left: %v", c.faultCls.Err.Error(), s, len(ls), idx))
 		case rev && len(ls) == 0:
 			// rolled back; a dangling index entry cannot be attributed by value any more, the
 			// global check below catches it
@@ -1182,7 +1239,7 @@ func c06Judge(r *kit.Result, c *c06Case, caseID string, resp *logical.Response, 
 	c.cleanup(r, caseID, s1, held, issued)
 
 	// ---- the same store after a restart, inside and outside the lease-restoration window
-	if winSnap != nil {
+	if winSnap != nil && !c.noWindow {
 		r.Count("window_cases", 1)
 		c06Window(r, v, caseID, c06StoreFrom(winSnap, c.tx), vr.NS, winToks, winSecs, "C06-usable-token-without-lease-after-restart", func(class, what string, extra map[string]any) {
 			w2 := map[string]any{}
@@ -1266,6 +1323,177 @@ func (c *c06Case) cleanup(r *kit.Result, caseID string, s1 *c06State, held c06Pa
 			}
 		}
 	}
+}
+
+// ------------------------------------------------------------------ storage error classes
+//
+// The kit's injected fault is one generic error value. A real store fails in classes the core treats
+// differently: a read-only / standby store refuses writes with errors that logical.ShouldForward
+// recognises ("cannot write to readonly storage", "please forward to the active node", raft's "node
+// is not the leader", "Vault is in standby mode"), a store bound to the request's context returns
+// context.Canceled / DeadlineExceeded, a transactional store fails the commit with
+// physical.ErrTransactionCommitFailure. c06Inj sits between the probe and the in-memory store and
+// makes the n-th storage operation of the calling goroutine (the request under test) fail once
+// with a chosen error; the probe above it logs the operation with that error.
+
+type c06ErrClass struct {
+	Name    string
+	Err     error
+	Forward bool // logical.ShouldForward(Err)
+}
+
+var c06FwdClasses = []c06ErrClass{
+	{Name: "readonly", Err: logical.ErrReadOnly, Forward: true},
+	{Name: "please-forward", Err: logical.ErrPerfStandbyPleaseForward, Forward: true},
+	{Name: "not-leader", Err: errors.New("node is not the leader"), Forward: true},
+	{Name: "standby", Err: consts.ErrStandby, Forward: true},
+}
+
+var c06CtxClasses = []c06ErrClass{
+	{Name: "ctx-canceled", Err: context.Canceled},
+	{Name: "ctx-deadline", Err: context.DeadlineExceeded},
+}
+
+var c06CommitClass = c06ErrClass{Name: "commit-failure", Err: physical.ErrTransactionCommitFailure}
+
+var c06Injs = map[*vCore]*c06Inj{}
+
+type c06Inj struct {
+	on    atomic.Bool
+	mu    sync.Mutex
+	goid  uint64
+	n     int
+	want  string // operation kind expected at position n ("" = any)
+	err   error
+	seen  int
+	fired bool
+	drift bool
+}
+
+func (j *c06Inj) arm(n int, want string, err error) {
+	j.mu.Lock()
+	j.goid, j.n, j.want, j.err, j.seen, j.fired, j.drift = kit.GoID(), n, want, err, 0, false, false
+	j.mu.Unlock()
+	j.on.Store(true)
+}
+
+func (j *c06Inj) disarm() (fired, drift bool) {
+	j.on.Store(false)
+	j.mu.Lock()
+	defer j.mu.Unlock()
+	return j.fired, j.drift
+}
+
+func (j *c06Inj) check(op string) error {
+	if !j.on.Load() {
+		return nil
+	}
+	id := kit.GoID()
+	j.mu.Lock()
+	defer j.mu.Unlock()
+	if id != j.goid || j.fired || j.drift {
+		return nil
+	}
+	j.seen++
+	if j.seen != j.n {
+		return nil
+	}
+	if j.want != "" && j.want != op {
+		j.drift = true // the request's operation sequence differs from the counting run: no fault
+		return nil
+	}
+	j.fired = true
+	return j.err
+}
+
+type c06InjBackend struct {
+	inner physical.Backend
+	j     *c06Inj
+}
+
+func (b *c06InjBackend) Put(ctx context.Context, e *physical.Entry) error {
+	if err := b.j.check("put"); err != nil {
+		return err
+	}
+	return b.inner.Put(ctx, e)
+}
+
+func (b *c06InjBackend) Get(ctx context.Context, k string) (*physical.Entry, error) {
+	if err := b.j.check("get"); err != nil {
+		return nil, err
+	}
+	return b.inner.Get(ctx, k)
+}
+
+func (b *c06InjBackend) Delete(ctx context.Context, k string) error {
+	if err := b.j.check("delete"); err != nil {
+		return err
+	}
+	return b.inner.Delete(ctx, k)
+}
+
+func (b *c06InjBackend) List(ctx context.Context, p string) ([]string, error) {
+	if err := b.j.check("list"); err != nil {
+		return nil, err
+	}
+	return b.inner.List(ctx, p)
+}
+
+func (b *c06InjBackend) ListPage(ctx context.Context, p, a string, l int) ([]string, error) {
+	if err := b.j.check("listpage"); err != nil {
+		return nil, err
+	}
+	return b.inner.ListPage(ctx, p, a, l)
+}
+
+type c06InjTxBackend struct {
+	*c06InjBackend
+	txb physical.Transactional
+}
+
+func (b *c06InjTxBackend) BeginTx(ctx context.Context) (physical.Transaction, error) {
+	if err := b.j.check("begin"); err != nil {
+		return nil, err
+	}
+	tx, err := b.txb.BeginTx(ctx)
+	if err != nil {
+		return nil, err
+	}
+	return &c06InjTx{c06InjBackend: &c06InjBackend{inner: tx, j: b.j}, tx: tx}, nil
+}
+
+func (b *c06InjTxBackend) BeginReadOnlyTx(ctx context.Context) (physical.Transaction, error) {
+	if err := b.j.check("beginro"); err != nil {
+		return nil, err
+	}
+	tx, err := b.txb.BeginReadOnlyTx(ctx)
+	if err != nil {
+		return nil, err
+	}
+	return &c06InjTx{c06InjBackend: &c06InjBackend{inner: tx, j: b.j}, tx: tx}, nil
+}
+
+type c06InjTx struct {
+	*c06InjBackend
+	tx physical.Transaction
+}
+
+func (t *c06InjTx) Commit(ctx context.Context) error {
+	if err := t.j.check("commit"); err != nil {
+		_ = t.tx.Rollback(ctx) // a failed commit aborts the transaction
+		return err
+	}
+	return t.tx.Commit(ctx)
+}
+
+func (t *c06InjTx) Rollback(ctx context.Context) error { return t.tx.Rollback(ctx) }
+
+func (j *c06Inj) wrap(inner physical.Backend) physical.Backend {
+	b := &c06InjBackend{inner: inner, j: j}
+	if txb, ok := inner.(physical.Transactional); ok {
+		return &c06InjTxBackend{c06InjBackend: b, txb: txb}
+	}
+	return b
 }
 
 // ------------------------------------------------------------------ the lease-restoration window
@@ -1799,6 +2027,10 @@ func c06Hash(x string) uint64 {
 
 const c06ClassX2 = "C06-X2-rollback-storage-cleanup-bound-to-cancelled-request-context"
 
+const c06ClassRO = "C06-secret-not-revoked-after-read-only-class-lease-write-failure"
+
+const c06ClassEdgeBatch = "C06-secret-issued-to-expiring-batch-token-neither-leased-nor-revoked"
+
 const c06ClassX1 = "C06-X1-cross-namespace-lease-survives-token-revocation"
 
 // c06Unclassified counts violations other than the narrowly classified cross-namespace finding
@@ -1830,7 +2062,7 @@ func c06Pick(vars []c06Variant) []c06Variant {
 func TestVerif_C06_Faults(t *testing.T) {
 	seed := kit.Seed(6)
 	shard, _ := kit.Shard()
-	r := kit.NewResult(t, "c06-faults", seed, "for each request variant (leased read/update on the recording backend by service / use-limited / final-use / batch tokens, login through the recording auth backend, auth/token/create; service and batch tokens; wrapped and unwrapped; root and child namespace, cross-namespace; paths whose token lease registration is refused) x store kind: the request runs twice fault-free (warm-up, then counting its n storage operations), then once per storage operation index i=1..n with that operation failing once; after each run the conservation oracle compares the client's response, the backend's issued/revoked log and the stored lease / token-index / token records with the snapshot taken before the request, then revokes the owning token and checks that the revocation reaches the lease. A case is non-trivial when the fault fired after the request had already issued a secret or written a token entry; distinct by (variant, store kind, failed operation class)")
+	r := kit.NewResult(t, "c06-faults", seed, "for each request variant (leased read/update on the recording backend by service / use-limited / final-use / batch tokens, login through the recording auth backend, auth/token/create; service and batch tokens; wrapped and unwrapped; root and child namespace, cross-namespace; paths whose token lease registration is refused) x store kind: the request runs twice fault-free (warm-up, then counting its n storage operations), then once per storage operation index i=1..n with that operation failing once; after each run the conservation oracle compares the client's response, the backend's issued/revoked log and the stored lease / token-index / token records with the snapshot taken before the request, then revokes the owning token and checks that the revocation reaches the lease. From the request's first effect on, the same operations also fail with the error classes of a real store: each write with a read-only / standby class error (readonly, please-forward, not-leader, standby, rotating), each operation (quick: every other) with context.Canceled / DeadlineExceeded, each transaction commit with the commit failure; same oracle. A case is non-trivial when the fault fired after the request had already issued a secret or written a token entry; distinct by (variant, store kind, failed operation class)")
 	r.Exhaustive = true
 	defer r.Write(t)
 	vars := c06Pick(c06Variants())
@@ -1846,6 +2078,7 @@ func TestVerif_C06_Faults(t *testing.T) {
 					if v != nil {
 						v.Close()
 						delete(c06Stuck, v)
+						delete(c06Injs, v)
 					}
 					v = c06Boot(t, tx, cache)
 					c06Populate(t, v, rng)
@@ -1858,6 +2091,7 @@ func TestVerif_C06_Faults(t *testing.T) {
 			if v != nil {
 				v.Close()
 				delete(c06Stuck, v)
+				delete(c06Injs, v)
 			}
 		}
 	}
@@ -1879,6 +2113,15 @@ func TestVerif_C06_Faults(t *testing.T) {
 	r.Require("window_leaseless_tokens_presented:create", 20)
 	r.Require("window_leaseless_tokens_presented:wrapped", 30)
 	r.Require("window_leaseless_secret_renew_refused", 30)
+	// the error classes of a real store (c06Inj)
+	r.Require("class_faults_fired", 300)
+	for _, cl := range c06FwdClasses {
+		r.Require("class_faults_fired:"+cl.Name, 30)
+	}
+	r.Require("class_faults_fired:ctx-canceled", 40)
+	r.Require("class_faults_fired:ctx-deadline", 40)
+	r.Require("readonly_class_lease_write_failures", 25)
+	r.Require("class_fault_rolled_back", 40)
 }
 
 func c06FaultVariant(t *testing.T, v *vCore, r *kit.Result, rng *kit.Rand, vr c06Variant, tx bool, round int) {
@@ -1887,15 +2130,22 @@ func c06FaultVariant(t *testing.T, v *vCore, r *kit.Result, rng *kit.Rand, vr c0
 		return // replaying a case of another variant
 	}
 	rng = kit.NewRand(kit.Seed(6), c06Hash(base)) // per-variant stream: a replay draws the same parameters
+	var runCls *c06ErrClass                       // error class of the next run (nil = the kit's generic injected error)
+	runWant := ""
 	run := func(caseID string, failAt int) (fired bool, faulted kit.Event, vd c06Verdict, ok bool) {
 		rng := kit.NewRand(kit.Seed(6), c06Hash(caseID)) // per-case stream: a replay draws the same parameters
 		c := c06NewCase(v, vr, tx, rng)
+		cls := runCls
+		c.faultCls, c.noWindow = cls, cls != nil
 		if err := c.setup(); err != nil {
 			r.Inconc("%s: fixture failed: %v", caseID, err)
 			return false, faulted, vd, false
 		}
 		cancelLost := false
-		if failAt > 0 {
+		if failAt > 0 && cls != nil {
+			c06Injs[v].arm(failAt, runWant, cls.Err)
+		}
+		if failAt > 0 && cls == nil {
 			cnt := 0
 			v.Probe.FailNth(func(e kit.Event) bool {
 				if e.Tag != c06Tag {
@@ -1929,17 +2179,31 @@ func c06FaultVariant(t *testing.T, v *vCore, r *kit.Result, rng *kit.Rand, vr c0
 		v.Probe.StartLog(false)
 		resp, err := c.request(c06Tag)
 		fired = v.Probe.ClearFaults() > 0
+		if cls != nil {
+			var drift bool
+			fired, drift = c06Injs[v].disarm()
+			if drift {
+				r.Count("class_fault_sequence_drift", 1)
+			}
+		}
 		if cancelLost {
 			r.Inconc("%s: the cancellation of the request context did not reach the request within the wait bound", caseID)
 		}
 		for _, e := range v.Probe.StopLog() {
 			if e.Tag == c06Tag {
 				c.ops = append(c.ops, e)
+				if cls != nil && fired && e.Err != "" && faulted.Op == "" {
+					faulted = e
+				}
 			}
 		}
 		fault := "none"
 		if fired {
 			fault = fmt.Sprintf("storage op %d of the request (%s %s) failed once", failAt, faulted.Op, c06KeyClass(faulted.Key))
+			if cls != nil {
+				fault += fmt.Sprintf(" with %q (error class %s)", cls.Err.Error(), cls.Name)
+			}
+			c.faulted = faulted
 		}
 		vd = c06Judge(r, c, caseID, resp, err, fault)
 		if failAt == 0 {
@@ -1971,17 +2235,38 @@ func c06FaultVariant(t *testing.T, v *vCore, r *kit.Result, rng *kit.Rand, vr c0
 		return
 	}
 	n := 0
+	issuedAt := -1      // operations of the request that preceded the first issued secret / login (-1: none seen)
+	var seq []kit.Event // the request's operations a fault can be injected at, in order
 	{
 		c := c06NewCase(v, vr, tx, rng)
 		if err := c.setup(); err != nil {
 			r.Inconc("%s: fixture failed: %v", base, err)
 			return
 		}
+		// position (in the request's own operation sequence) at which a backend first issued a secret / built a login
+		v.Rec.mu.Lock()
+		v.Rec.OnHandler = func(ev vRecEvent) {
+			if (ev.Kind == "issued" || ev.Kind == "login") && issuedAt < 0 {
+				issuedAt = 0
+				for _, e := range v.Probe.Log() {
+					if e.Tag == c06Tag && e.Op != "rollback" {
+						issuedAt++
+					}
+				}
+			}
+		}
+		v.Rec.mu.Unlock()
 		v.Probe.StartLog(false)
 		resp, err := c.request(c06Tag)
+		v.Rec.mu.Lock()
+		v.Rec.OnHandler = nil
+		v.Rec.mu.Unlock()
 		for _, e := range v.Probe.StopLog() {
 			if e.Tag == c06Tag {
 				c.ops = append(c.ops, e)
+				if e.Op != "rollback" {
+					seq = append(seq, e)
+				}
 			}
 		}
 		n = len(c.ops)
@@ -2017,6 +2302,64 @@ func c06FaultVariant(t *testing.T, v *vCore, r *kit.Result, rng *kit.Rand, vr c0
 				r.Count("fault_rolled_back", 1)
 			case vd.OrphanLease:
 				r.Count("fault_left_undelivered_but_leased", 1)
+			}
+		}
+	}
+
+	// ---- the same operations failing with the error classes a real store produces (c06Inj). From the first
+	// effect of the request on (a secret issued / a login built / the first write): every write with one of the
+	// read-only / standby class errors (rotating), every commit with the commit failure, every operation with
+	// a context error (alternating). The oracle is the same conservation law.
+	effectStart := len(seq)
+	for i, e := range seq {
+		if e.Op == "put" || e.Op == "delete" || e.Op == "commit" {
+			effectStart = i
+			break
+		}
+	}
+	if issuedAt >= 0 && issuedAt < effectStart {
+		effectStart = issuedAt
+	}
+	h := int(c06Hash(base) % 16)
+	for i := effectStart; i < len(seq); i++ {
+		e := seq[i]
+		var classes []c06ErrClass
+		if e.Op == "put" || e.Op == "delete" || e.Op == "commit" {
+			classes = append(classes, c06FwdClasses[(i+h)%len(c06FwdClasses)])
+		}
+		if e.Op == "commit" {
+			classes = append(classes, c06CommitClass)
+		}
+		if kit.Tier() != "quick" || (i+h)%2 == 0 || kit.OnlyCase() != "" {
+			// (quick: every other operation)
+			classes = append(classes, c06CtxClasses[((i+h)/2)%len(c06CtxClasses)])
+		}
+		for ci := range classes {
+			cls := classes[ci]
+			caseID := fmt.Sprintf("%s:%d:%s", base, i+1, cls.Name)
+			if !kit.WantCase(caseID) {
+				continue
+			}
+			runCls, runWant = &cls, e.Op
+			fired, faulted, vd, _ := run(caseID, i+1)
+			runCls, runWant = nil, ""
+			r.Eval(1)
+			if !fired {
+				r.Count("class_fault_not_reached", 1)
+				continue
+			}
+			r.Count("class_faults_fired", 1)
+			r.Count("class_faults_fired:"+cls.Name, 1)
+			if vd.HadEffect {
+				r.Count("class_fault_after_effect", 1)
+				r.Nontrivial(fmt.Sprintf("%s|%v|%s|%s|%s", vr.Name, tx, faulted.Op, c06KeyClass(faulted.Key), cls.Name))
+				if vd.RolledBack {
+					r.Count("class_fault_rolled_back", 1)
+					r.Count("class_fault_rolled_back:"+cls.Name, 1)
+				}
+			}
+			if cls.Forward && vr.Kind == "secret" && (&c06Case{faulted: faulted}).leaseWriteFault() && faulted.Op != "commit" {
+				r.Count("readonly_class_lease_write_failures", 1)
 			}
 		}
 	}
@@ -2314,4 +2657,254 @@ func c06CrashVariant(t *testing.T, v *vCore, r *kit.Result, rng *kit.Rand, vr c0
 	}
 	// clean the original core
 	c.cleanup(r, base, s1, held, issued)
+}
+
+// ------------------------------------------------------------------ tokens at the end of their lifetime
+//
+// A request is authorised with a token that is valid, and the token's lifetime ends while the secrets
+// engine is generating the credential (c06CtxMount.afterIssue keeps the handler from returning until the
+// token store itself reports the token gone). Whatever the core then does with the credential, the
+// conservation law holds: it is covered by a durable lease record (which, clamped to the token's
+// lifetime, is revoked at once) or it is revoked at the backend. The verdict is taken from the state at
+// the moment the request returns; a bounded wait only ever turns "neither yet" into a pass, never the
+// reverse, and a credential that is neither leased nor revoked when the wait is over is the violation.
+
+type c06EdgeSpec struct {
+	Name string
+	Kind string // batch-child | batch-orphan | service-short
+	NS   string
+	Wrap bool
+	Tx   bool
+}
+
+type c06EdgeRun struct {
+	spec c06EdgeSpec
+	v    *vCore
+}
+
+func c06EdgeSpecs() []c06EdgeSpec {
+	var out []c06EdgeSpec
+	quick := map[string]bool{
+		"batch-child/ns=/wrap=false/tx=false":     true,
+		"batch-orphan/ns=/wrap=false/tx=true":     true,
+		"batch-child/ns=ns1//wrap=true/tx=true":   true,
+		"service-short/ns=/wrap=false/tx=false":   true,
+		"batch-orphan/ns=ns1//wrap=true/tx=false": true,
+	}
+	for _, kind := range []string{"batch-child", "batch-orphan", "service-short"} {
+		for _, ns := range []string{"", "ns1/"} {
+			for _, wrap := range []bool{false, true} {
+				for _, tx := range []bool{false, true} {
+					sp := c06EdgeSpec{Kind: kind, NS: ns, Wrap: wrap, Tx: tx}
+					sp.Name = fmt.Sprintf("%s/ns=%s/wrap=%v/tx=%v", kind, ns, wrap, tx)
+					if kit.Tier() == "quick" && !quick[sp.Name] {
+						continue
+					}
+					out = append(out, sp)
+				}
+			}
+		}
+	}
+	return out
+}
+
+func TestVerif_C06_Edge(t *testing.T) {
+	seed := kit.Seed(6)
+	shard, shards := kit.Shard()
+	r := kit.NewResult(t, "c06-edge", seed, "for each token kind (batch child, orphan batch, short-lived service token) x namespace x wrapped/unwrapped x store kind: a leased read is made with a token of 2s lifetime on a mount whose handler, having issued the credential, does not return before the token store reports the token gone (bounded); when the request returns, and after a bounded wait, every credential the backend issued must be covered by a durable lease record or be revoked at the backend. A case counts when the handler ran (the token was valid at authorisation) and the token's end was observed inside the handler")
+	defer r.Write(t)
+	var runs []*c06EdgeRun
+	for _, sp := range c06EdgeSpecs() {
+		caseID := "edge:" + sp.Name
+		if !kit.WantCase(caseID) || int(c06Hash(sp.Name)%uint64(shards)) != shard {
+			continue
+		}
+		runs = append(runs, &c06EdgeRun{spec: sp, v: c06Boot(t, sp.Tx, false)}) // cores are booted one after the other
+	}
+	// the cases spend their time waiting for a token to run out: they run side by side, one core each
+	var wg sync.WaitGroup
+	for _, er := range runs {
+		wg.Add(1)
+		go func(er *c06EdgeRun) {
+			defer wg.Done()
+			c06EdgeCase(r, er, kit.NewRand(seed, c06Hash("edge:"+er.spec.Name)))
+		}(er)
+	}
+	wg.Wait()
+	for _, er := range runs {
+		er.v.Close()
+		delete(c06Injs, er.v)
+		delete(c06CtxMounts, er.v)
+	}
+	if kit.OnlyCase() == "" {
+		r.Require("edge_cases_exercised", 3)
+		r.Require("edge_cases_exercised:batch", 2)
+		r.Require("edge_credential_leased_or_revoked", 3)
+	}
+}
+
+func c06EdgeCase(r *kit.Result, er *c06EdgeRun, rng *kit.Rand) {
+	v, sp := er.v, er.spec
+	caseID := "edge:" + sp.Name
+	r.Eval(1)
+	name := "e" + rng.Canary()[4:12]
+	const ttl = "2s"
+	// ---- the token
+	var tok string
+	switch sp.Kind {
+	case "batch-child":
+		p, resp, err := v.CreateToken(v.Root, map[string]any{"policies": []string{"c06"}, "ttl": "1h"}, false, sp.NS)
+		if p == nil {
+			r.Inconc("%s: parent token: %s", caseID, vErrStr(resp, err))
+			return
+		}
+		resp, err = v.Do(vReq{Op: logical.UpdateOperation, Path: "auth/token/create", Token: p.ID, NS: sp.NS, Data: map[string]any{"type": "batch", "policies": []string{"c06"}, "ttl": ttl}})
+		if !vOK(resp, err) || resp == nil || resp.Auth == nil {
+			r.Inconc("%s: batch child token: %s", caseID, vErrStr(resp, err))
+			return
+		}
+		tok = resp.Auth.ClientToken
+	case "batch-orphan":
+		resp, err := v.Do(vReq{Op: logical.UpdateOperation, Path: "auth/c06auth/login/edge", NS: sp.NS, Data: map[string]any{"policies": []string{"c06"}, "ttl": ttl, "token_type": "batch"}})
+		if !vOK(resp, err) || resp == nil || resp.Auth == nil {
+			r.Inconc("%s: batch login: %s", caseID, vErrStr(resp, err))
+			return
+		}
+		tok = resp.Auth.ClientToken
+	case "service-short":
+		p, resp, err := v.CreateToken(v.Root, map[string]any{"policies": []string{"c06"}, "ttl": ttl}, false, sp.NS)
+		if p == nil {
+			r.Inconc("%s: short-lived token: %s", caseID, vErrStr(resp, err))
+			return
+		}
+		tok = p.ID
+	}
+	nsCtx := namespace.RootContext(context.Background())
+	for _, nn := range c06Namespaces(v) {
+		if nn.Path == sp.NS {
+			nsCtx = namespace.ContextWithNamespace(context.Background(), nn)
+		}
+	}
+	// ---- the slow handler: returns once the token store says the token is gone
+	var hookMu sync.Mutex
+	handlerRan, goneSeen := false, false
+	var waited time.Duration
+	h := c06CtxMounts[v]
+	h.mu.Lock()
+	h.afterIssue = func(req *logical.Request) {
+		if !strings.HasSuffix(req.Path, name) {
+			return
+		}
+		t0 := time.Now()
+		gone := false
+		for i := 0; i < 1500 && !gone; i++ {
+			te, err := v.Core.tokenStore.Lookup(nsCtx, tok)
+			if err == nil && te == nil {
+				gone = true
+				break
+			}
+			time.Sleep(10 * time.Millisecond)
+		}
+		time.Sleep(20 * time.Millisecond)
+		hookMu.Lock()
+		handlerRan, goneSeen, waited = true, gone, time.Since(t0)
+		hookMu.Unlock()
+	}
+	h.mu.Unlock()
+	mark := v.Rec.Len()
+	rq := vReq{Op: logical.ReadOperation, Path: "c06ctx/lease/" + name, Token: tok, NS: sp.NS}
+	if sp.Wrap {
+		rq.WrapTTL = 5 * time.Minute
+	}
+	resp, err := c06Do(v, rq, "c06-edge-"+name)
+	h.mu.Lock()
+	h.afterIssue = nil
+	h.mu.Unlock()
+	hookMu.Lock()
+	ran, gone, w := handlerRan, goneSeen, waited
+	hookMu.Unlock()
+	issued := c06RecIDs(v.Rec.Since(mark), "issued")
+	if !ran || len(issued) == 0 {
+		// the token ran out before the request was authorised (or the request was refused): nothing was issued
+		r.Count("edge_handler_not_reached", 1)
+		r.Note("%s: the handler did not run (%s)", caseID, vErrStr(resp, err))
+		return
+	}
+	if !gone {
+		r.Count("edge_token_end_not_observed", 1)
+		return
+	}
+	r.Count("edge_cases_exercised", 1)
+	kind := "batch"
+	if sp.Kind == "service-short" {
+		kind = "service"
+	}
+	r.Count("edge_cases_exercised:"+kind, 1)
+	r.Nontrivial(sp.Name)
+	// ---- what the client holds
+	held := c06Delivered(resp, err)
+	if held.How == "wrapped" {
+		if hr, uerr := c06Unwrap(v, held.WrapToken, sp.NS); uerr == nil {
+			held = c06FromUnwrapped(hr)
+		} else {
+			held = c06Payload{How: "error"}
+			r.Note("%s: the wrapped response cannot be unwrapped: %v", caseID, uerr)
+		}
+	}
+	r.Count("edge_client_holds:"+held.How, 1)
+	// ---- conservation, at return and (only to let a revocation in flight land) after a bounded wait
+	state := func() (leased, revoked []string, neither []string) {
+		sn, serr := c06Scan(v)
+		rev := c06RecIDs(v.Rec.Since(mark), "revoked")
+		for _, s := range issued {
+			switch {
+			case c06Has(rev, s):
+				revoked = append(revoked, s)
+			case serr == nil && len(sn.leasesForSecret(s)) > 0:
+				leased = append(leased, s)
+			default:
+				neither = append(neither, s)
+			}
+		}
+		return
+	}
+	leased, revoked, neither := state()
+	atReturn := map[string]any{"leased": leased, "revoked_at_backend": revoked, "neither": neither}
+	for i := 0; i < 200 && len(neither) > 0; i++ {
+		time.Sleep(25 * time.Millisecond)
+		leased, revoked, neither = state()
+	}
+	wit := map[string]any{"case": sp.Name, "token_kind": sp.Kind, "token_ttl": ttl, "handler_waited_ms": w.Milliseconds(), "response": vErrStr(resp, err),
+		"client_holds": held.How, "backend_issued": issued, "at_return": atReturn, "after_wait": map[string]any{"leased": leased, "revoked_at_backend": revoked, "neither": neither}}
+	if len(neither) > 0 {
+		class := "C06-secret-neither-leased-nor-revoked-at-token-lifetime-edge"
+		if kind == "batch" && (held.How == "error" || held.How == "empty") {
+			class = c06ClassEdgeBatch
+		}
+		r.Violate(class, caseID, fmt.Sprintf("[%s] a leased read made with a %s token (ttl %s) whose lifetime ended while the backend generated the credential: response %s, credential %v was issued by the backend and is neither covered by a lease record nor revoked at the backend (5s after the request returned)", caseID, sp.Kind, ttl, vErrStr(resp, err), neither), wit)
+		return
+	}
+	r.Count("edge_credential_leased_or_revoked", len(issued))
+	if held.How == "secret" && !c06Has(issued, held.SecretID) {
+		r.Violate("C06-harness-unknown-secret", caseID, "the client holds a secret the backend did not issue in this request", wit)
+	}
+	// a lease clamped to the ended lifetime of a batch token is revoked at once; a bounded wait, reported only
+	for i := 0; i < 400 && len(leased) > 0 && kind == "batch"; i++ {
+		time.Sleep(25 * time.Millisecond)
+		leased, revoked, _ = state()
+	}
+	switch {
+	case len(leased) == 0:
+		r.Count("edge_credential_revoked_at_backend", len(revoked))
+	case kind == "batch":
+		r.Count("edge_batch_lease_still_live_after_wait", len(leased))
+		r.Note("%s: the lease of a credential issued to an ended batch token is durable but was not revoked within 10s", caseID)
+	default:
+		// the lease of a service token that was revoked meanwhile: durable (C06 holds); whether it outlives its token is C04's question
+		r.Count("edge_service_lease_registered_after_token_ended", len(leased))
+	}
+	if r.Get("edge_samples") < 3 {
+		r.Count("edge_samples", 1)
+		r.Sample(wit)
+	}
 }
